@@ -124,6 +124,29 @@ static int decomp(int l, int Bgbit) {
     }
     return 0;
 }
+// gadget rows (C09): result += message(X)*H, message*H, H -- block-diagonal structure over all rows, polynomials, coefficients
+static int gadget(const string &f) {
+    static const int shapes[][3] = {{1, 2, 10}, {1, 3, 7}, {2, 2, 10}, {1, 1, 8}, {3, 2, 5}, {1, 4, 8}, {2, 3, 7}};
+    for (auto &sh : shapes) for (int N : {1, 2, 3, 8, 17}) {
+        int k = sh[0], l = sh[1], Bgbit = sh[2];
+        TLweParams *tp = new_TLweParams(N, k, 0., 0.); TGswParams *gp = new_TGswParams(l, Bgbit, tp); TGswSample *g = new_TGswSample(gp); IntPolynomial *m = new_IntPolynomial(N);
+        int kpl = (k + 1) * l; vector<uint32_t> old((size_t)kpl * (k + 1) * N);
+        for (int rep = 0; rep < 20; rep++) {
+            for (int r = 0; r < kpl; r++) for (int q = 0; q <= k; q++) for (int j = 0; j < N; j++) old[((size_t)r * (k + 1) + q) * N + j] = U(g->all_sample[r].a[q].coefsT[j] = val());
+            for (int j = 0; j < N; j++) m->coefs[j] = rep == 0 ? 1 : val();
+            int32_t mi = val();
+            if (f == "tGswAddMuH") tGswAddMuH(g, m, gp); else if (f == "tGswAddMuIntH") tGswAddMuIntH(g, mi, gp); else tGswAddH(g, gp);
+            for (int r = 0; r < kpl; r++) for (int q = 0; q <= k; q++) for (int j = 0; j < N; j++) {
+                uint32_t h = 1u << (32 - (r % l + 1) * Bgbit), add = 0;
+                if (q == r / l) add = f == "tGswAddMuH" ? U(m->coefs[j]) * h : (j == 0 ? (f == "tGswAddMuIntH" ? U(mi) * h : h) : 0u);
+                uint32_t got = U(g->all_sample[r].a[q].coefsT[j]), exp = old[((size_t)r * (k + 1) + q) * N + j] + add;
+                if (got != exp) FAIL("%s k=%d l=%d Bgbit=%d N=%d: row (bloc %d, i %d) polynomial %d coefficient %d is %u, expected %u", f.c_str(), k, l, Bgbit, N, r / l, r % l, q, j, got, exp);
+            }
+        }
+        delete_IntPolynomial(m); delete_TGswSample(g); delete_TGswParams(gp); delete_TLweParams(tp);
+    }
+    return 0;
+}
 static int phase_pairing() {
     for (int n = 1; n <= 70; n++) for (int rep = 0; rep < 20; rep++) {
         LweParams *par = new_LweParams(n, 0., 0.); LweSample *s = new_LweSample(par); LweKey *k = new_LweKey(par);
@@ -204,6 +227,7 @@ int main(int argc, char **argv) {
     if (f.find("Extract") != string::npos) return extract(f);
     if (f == "decomp" && argc >= 4) return decomp(atoi(argv[2]), atoi(argv[3]));
     if (f == "pairing") return phase_pairing();
+    if (f == "tGswAddMuH" || f == "tGswAddMuIntH" || f == "tGswAddH") return gadget(f);
     if (f == "keyswitch" && argc >= 5) return keyswitch(atoi(argv[2]), atoi(argv[3]), atoi(argv[4]));
     if (f == "naive" || f.find("Karatsuba") != string::npos) return mult(f);
     if (f.compare(0, 4, "tLwe") == 0 && f.find("Extract") == string::npos) return tlwe(f);
